@@ -956,6 +956,16 @@ def key_function(repo, func, key):
     """what a `key=` argument computes: (list of normalised element texts of the returned tuple or [text], parameter name) for a lambda,
     a nested def, a module-level function or a method of the same class (`self.m`); temporaries of that function are expanded.
     None if it cannot be resolved."""
+    if isinstance(key, ast.Name) and not any(isinstance(x, FUNC_TYPES) and x.name == key.id for x in ast.walk(func)):
+        # a module-level name bound once to a lambda / attrgetter(...) stands for it
+        mod = getattr(func, '_mod', None)
+        binds = [st for st in (mod.tree.body if mod is not None else []) if isinstance(st, ast.Assign) and len(st.targets) == 1
+                 and isinstance(st.targets[0], ast.Name) and st.targets[0].id == key.id]
+        if len(binds) == 1 and isinstance(binds[0].value, (ast.Lambda, ast.Call)):
+            return key_function(repo, func, binds[0].value)
+    if isinstance(key, ast.Call) and norm(key.func).split('.')[-1] == 'attrgetter' and len(key.args) == 1 and not key.keywords \
+            and isinstance(key.args[0], ast.Constant) and isinstance(key.args[0].value, str):
+        return ['_x.%s' % key.args[0].value], '_x'
     if isinstance(key, ast.Lambda):
         body, arg, holder = key.body, key.args.args[0].arg, None
     else:
@@ -1306,3 +1316,31 @@ def fact_accept(func, text, pure_methods=()):
         k, p_ = atom_key(e, func, pure_methods=pure_methods)
         return k == k0 and (pol == p_) == p0
     return accept
+
+
+def emission_points(func):
+    """where func hands out the elements of its result, one at a time: [(node, element expression)] - the `yield X` of a generator, or,
+    for a function that returns a list it builds (`acc = []` ... `acc.append(X)` ... `return acc`, nothing else done with acc), the
+    append calls.  The two ways of writing "produce these elements in this order"."""
+    ys = [y for y in own_nodes(func) if isinstance(y, ast.Yield) and y.value is not None]
+    if ys:
+        return [(y, y.value) for y in ys]
+    rets = [r for r in stmts_in(func, ast.Return) if r.value is not None]
+    if not rets or not all(isinstance(r.value, ast.Name) for r in rets) or len({r.value.id for r in rets}) != 1:
+        return []
+    acc = rets[0].value.id
+    inits = [a for a in stmts_in(func, ast.Assign) if len(a.targets) == 1 and isinstance(a.targets[0], ast.Name) and a.targets[0].id == acc]
+    if len(inits) != 1 or not (isinstance(inits[0].value, ast.List) and not inits[0].value.elts):
+        return []
+    out = []
+    for n in own_nodes(func):
+        if isinstance(n, ast.Name) and n.id == acc and isinstance(n.ctx, ast.Load):
+            par = getattr(n, '_parent', None)
+            gp = getattr(par, '_parent', None)
+            if isinstance(par, ast.Attribute) and par.attr == 'append' and isinstance(gp, ast.Call) and gp.func is par and len(gp.args) == 1:
+                out.append((gp, gp.args[0]))
+            elif isinstance(par, ast.Return):
+                pass
+            else:
+                return []
+    return out
